@@ -1337,9 +1337,16 @@ def concat(objs, axis=0, ignore_index=False, keys=None, **kw):
         out = DataFrame()
         first = objs[0]
         out.index = first.index
+        if not _b.all(o.index.equals(first.index) for o in objs[1:]):
+            # outer join on the row labels (pandas' default): the union of the labels, NaN where an object has none
+            if not _b.all(isinstance(o, Series) and o.index.is_unique for o in objs):
+                raise ModelGap("concat(axis=1) of differently indexed frames / duplicate labels")
+            uni = first.index
+            for o in objs[1:]:
+                uni = uni.union(o.index)
+            objs = [Series([o._v[o.index.get_loc(lab)] if lab in o.index else mnp.nan for lab in uni], index=uni, name=o.name) for o in objs]
+            out.index = uni
         for j, o in enumerate(objs):
-            if not o.index.equals(first.index):
-                raise ModelGap("concat(axis=1) of differently indexed objects")
             if isinstance(o, Series):
                 nm = keys[j] if keys is not None else (o.name if o.name is not None else j)
                 while nm in out._cols:
